@@ -7,6 +7,20 @@ HERE = os.path.dirname(os.path.dirname(os.path.abspath(__file__)))
 
 # property -> (technique, level text, level note, design ref)
 CLAIMED = {
+    "C08": (
+        "writer/reader agreement rules: normal-form equality between get_static_bit_length and "
+        "the bit lengths handed to the atomic codec, the decoder's byte-consumption formula in "
+        "the composite static length, dominance of the size-limit checks by the content call, "
+        "comparison of is_required with the encoder's missing-value branch incl. the SYSTEM "
+        "parameter table, break-at-first-non-constant rule of the prefix",
+        "Decides that every static description is computed from the same expressions as the "
+        "codec uses: static length vs encoded/decoded length per class, the composite length "
+        "formula, both-sided and live size-limit checks, is_required/is_settable vs encoder "
+        "behaviour per parameter kind, required/free lists as their filters, and the constant "
+        "prefix stopping at the first non-constant parameter.",
+        "Not decided: lengths of dynamically sized objects; prefix equality on concrete PDUs. "
+        "Known findings: condensed BIT-MASK static length, RESERVED parameters drop values.",
+        "DESIGN.md section 3, C08"),
     "C06": (
         "loop-shape and handler rules over the dispatch code on its CFG (leaf-key checks of the "
         "prefix-tree walk, per-candidate try/except isolation, prefix filter normal form, "
